@@ -205,9 +205,69 @@ Definition kind_template (k : T.addr_kind) (h : bytes) : bytes :=
 Definition b58_branch (pl : bytes) : result bytes :=
   let version := firstn 1 pl in
   let payload := skipn 1 pl in
-  if bytes_eqb version ver_p2pkh_main || bytes_eqb version ver_p2pkh_test then p2pkh_script_pubkey payload
+  if negb (Z.of_nat (length payload) =? 20) then Err ValueE
+  else if bytes_eqb version ver_p2pkh_main || bytes_eqb version ver_p2pkh_test then p2pkh_script_pubkey payload
   else if bytes_eqb version ver_p2sh_main || bytes_eqb version ver_p2sh_test then p2sh_script_pubkey payload
   else Err ValueE.
+
+(* the decoded form of a Base58Check ADDRESS: a known version byte in front of a 20-byte hash *)
+Definition b58_address_payload (pl : bytes) : Prop :=
+  exists v h, pl = v :: h /\ length h = 20%nat /\ (In v T.p2pkh_versions \/ In v T.p2sh_versions).
+
+Lemma b58_address_payload_dec pl : b58_address_payload pl \/ ~ b58_address_payload pl.
+Proof.
+  destruct pl as [|v h]; [right; intros (v & h & E & _); discriminate|].
+  destruct (Nat.eq_dec (length h) 20) as [L|NL].
+  - destruct (in_dec byte_eq_dec v T.p2pkh_versions) as [I|N1]; [left; exists v, h; auto|].
+    destruct (in_dec byte_eq_dec v T.p2sh_versions) as [I|N2]; [left; exists v, h; auto|].
+    right. intros (v' & h' & E & _ & [I|I]); injection E as <- <-; contradiction.
+  - right. intros (v' & h' & E & L & _). injection E as <- <-. contradiction.
+Qed.
+
+Lemma b58_branch_known v h : length h = 20%nat ->
+  (In v T.p2pkh_versions -> b58_branch (v :: h) = Ok (T.tpl_p2pkh h))
+  /\ (In v T.p2sh_versions -> b58_branch (v :: h) = Ok (T.tpl_p2sh h)).
+Proof.
+  intros L. assert (LZ : lenZ h = 20) by (unfold lenZ; lia).
+  split; intros I; unfold b58_branch; cbn [firstn skipn]; rewrite L; change (negb (Z.of_nat 20 =? 20)) with false; cbv iota;
+    cbn [In T.p2pkh_versions T.p2sh_versions] in I.
+  - destruct I as [<-|[<-|[]]]; cbn [bytes_eqb byte_eqb orb andb]; rewrite p2pkh_bytes by lia; rewrite LZ; reflexivity.
+  - destruct I as [<-|[<-|[]]]; rewrite p2sh_bytes by lia; rewrite LZ; reflexivity.
+Qed.
+
+(* everything else is refused: no version byte, a version byte other than 00 6f 05 c4 (252 of them), a payload
+   that is not 20 bytes long *)
+Lemma b58_branch_refuses pl : ~ b58_address_payload pl -> b58_branch pl = Err ValueE.
+Proof.
+  intros H. unfold b58_branch. destruct (Z.eqb_spec (Z.of_nat (length (skipn 1 pl))) 20) as [L|]; [|reflexivity].
+  cbn [negb]. destruct pl as [|v payload]; [reflexivity|]. cbn [firstn skipn] in *.
+  assert (N1 : ~ In v T.p2pkh_versions) by (intros I; apply H; exists v, payload; repeat split; auto; lia).
+  assert (N2 : ~ In v T.p2sh_versions) by (intros I; apply H; exists v, payload; repeat split; auto; lia).
+  unfold ver_p2pkh_main, ver_p2pkh_test, ver_p2sh_main, ver_p2sh_test. cbn [T.version_byte bytes_eqb].
+  rewrite !andb_true_r.
+  destruct (byte_eqb v x00) eqn:E1; [apply byte_eqb_eq in E1; subst; exfalso; apply N1; cbn; auto|].
+  destruct (byte_eqb v x6f) eqn:E2; [apply byte_eqb_eq in E2; subst; exfalso; apply N1; cbn; auto|].
+  destruct (byte_eqb v x05) eqn:E3; [apply byte_eqb_eq in E3; subst; exfalso; apply N2; cbn; auto|].
+  destruct (byte_eqb v xc4) eqn:E4; [apply byte_eqb_eq in E4; subst; exfalso; apply N2; cbn; auto|].
+  reflexivity.
+Qed.
+
+Lemma b58_branch_ok_inv pl s : b58_branch pl = Ok s ->
+  exists v h, pl = v :: h /\ length h = 20%nat /\
+    ((In v T.p2pkh_versions /\ s = T.tpl_p2pkh h) \/ (In v T.p2sh_versions /\ s = T.tpl_p2sh h)).
+Proof.
+  intros Q. destruct (b58_address_payload_dec pl) as [A|A]; [|rewrite (b58_branch_refuses _ A) in Q; discriminate].
+  destruct A as (v & h & -> & L & I). exists v, h. split; [reflexivity|]. split; [exact L|].
+  destruct (b58_branch_known v h L) as [B1 B2].
+  destruct I as [I|I]; [left; rewrite (B1 I) in Q | right; rewrite (B2 I) in Q]; injection Q as <-; auto.
+Qed.
+
+Lemma b58_branch_err pl e : b58_branch pl = Err e -> e = ValueE.
+Proof.
+  destruct (b58_address_payload_dec pl) as [(v & h & -> & L & I)|A].
+  - destruct (b58_branch_known v h L) as [B1 B2]. destruct I as [I|I]; [rewrite (B1 I)|rewrite (B2 I)]; discriminate.
+  - rewrite (b58_branch_refuses _ A). now intros [= <-].
+Qed.
 
 Section Dispatch.
   Variable sha256 : bytes -> bytes.
@@ -239,30 +299,6 @@ Section Dispatch.
     rewrite (b58check_not_point _ B). cbn [bind]. rewrite B, D. reflexivity.
   Qed.
 
-  Lemma b58_branch_known v payload : lenZ payload < 256 ->
-    (In v T.p2pkh_versions -> b58_branch (v :: payload) = Ok (x76 :: xa9 :: z2b (lenZ payload) :: payload ++ [x88; xac]))
-    /\ (In v T.p2sh_versions -> b58_branch (v :: payload) = Ok (xa9 :: z2b (lenZ payload) :: payload ++ [x87])).
-  Proof.
-    intros L. split; intros I; unfold b58_branch; cbn [firstn skipn]; cbn [In T.p2pkh_versions T.p2sh_versions] in I.
-    - destruct I as [<-|[<-|[]]]; cbn [bytes_eqb byte_eqb orb andb]; [change (if true || _ then ?x else _) with x|]; now apply p2pkh_bytes.
-    - destruct I as [<-|[<-|[]]]; now apply p2sh_bytes.
-  Qed.
-
-  Lemma b58_branch_unknown pl :
-    (forall v payload, pl = v :: payload -> ~ In v T.p2pkh_versions /\ ~ In v T.p2sh_versions) ->
-    b58_branch pl = Err ValueE.
-  Proof.
-    intros H. unfold b58_branch. destruct pl as [|v payload]; [reflexivity|].
-    destruct (H v payload eq_refl) as [N1 N2]. cbn [firstn skipn].
-    unfold ver_p2pkh_main, ver_p2pkh_test, ver_p2sh_main, ver_p2sh_test. cbn [T.version_byte bytes_eqb].
-    rewrite !andb_true_r.
-    destruct (byte_eqb v x00) eqn:E1; [apply byte_eqb_eq in E1; subst; exfalso; apply N1; cbn; auto|].
-    destruct (byte_eqb v x6f) eqn:E2; [apply byte_eqb_eq in E2; subst; exfalso; apply N1; cbn; auto|].
-    destruct (byte_eqb v x05) eqn:E3; [apply byte_eqb_eq in E3; subst; exfalso; apply N2; cbn; auto|].
-    destruct (byte_eqb v xc4) eqn:E4; [apply byte_eqb_eq in E4; subst; exfalso; apply N2; cbn; auto|].
-    reflexivity.
-  Qed.
-
   (* ---- T: p2pkh_script, p2sh_script (three networks, both kinds) ---- *)
   Theorem b58_address_script k net h : length h = 20%nat ->
     let addr := base58check sha256 (T.version_byte k net :: h) in
@@ -270,14 +306,26 @@ Section Dispatch.
     /\ is_point addr = Ok false
     /\ scriptpubkey addr = Ok (kind_template k h).
   Proof.
-    intros L addr. assert (LZ : lenZ h = 20) by (unfold lenZ; lia).
+    intros L addr.
     assert (D : base58check_decode sha256 addr = Ok (T.version_byte k net :: h)) by apply (b58check_roundtrip sha256 sha256_len).
     split; [destruct k, net; reflexivity|]. split.
     - apply b58check_not_point. apply is_base58check_iff. eauto.
     - rewrite (scriptpubkey_b58 _ _ D).
-      destruct (b58_branch_known (T.version_byte k net) h ltac:(lia)) as [B1 B2].
-      destruct k; [rewrite B1 | rewrite B2]; try (destruct net; cbn; auto); rewrite LZ; reflexivity.
+      destruct (b58_branch_known (T.version_byte k net) h L) as [B1 B2].
+      destruct k; [apply B1 | apply B2]; destruct net; cbn; auto.
   Qed.
+
+  (* ... and every ACCEPTED Base58Check string whose payload is a known version byte and a 20-byte hash *)
+  Theorem b58_accepted data v h : base58check_decode sha256 data = Ok (v :: h) -> length h = 20%nat ->
+    (In v T.p2pkh_versions -> scriptpubkey data = Ok (T.tpl_p2pkh h))
+    /\ (In v T.p2sh_versions -> scriptpubkey data = Ok (T.tpl_p2sh h)).
+  Proof. intros D L. rewrite (scriptpubkey_b58 _ _ D). now apply b58_branch_known. Qed.
+
+  (* a checksum-valid Base58Check string that is NOT version byte + 20-byte hash is refused (the repaired defect:
+     payloads of the wrong size; and all 252 unknown version bytes) *)
+  Theorem b58_non_address_refused data pl : base58check_decode sha256 data = Ok pl -> ~ b58_address_payload pl ->
+    scriptpubkey data = Err ValueE.
+  Proof. intros D N. rewrite (scriptpubkey_b58 _ _ D). now apply b58_branch_refuses. Qed.
 
   (* ---- segwit branch, for EVERY valid segwit address that is not also checksum-valid Base58Check ---- *)
   Lemma scriptpubkey_segwit data hrp v prog : spec_decode data = Some (hrp, v, prog) ->
@@ -340,7 +388,7 @@ Section Dispatch.
     unfold Address.scriptpubkey. rewrite H. cbn [bind]. rewrite p2pk_bytes by (unfold lenZ; lia). reflexivity.
   Qed.
 
-  (* ---- T: dispatch_disjoint ---- *)
+  (* ---- T: dispatch_disjoint (unconditional) ---- *)
   Theorem dispatch_disjoint data :
     (is_base58check sha256 data = true -> is_point data = Ok false)
     /\ (valid_segwit data = true -> is_point data = Ok false)
@@ -381,96 +429,45 @@ Section Dispatch.
     - unfold Address.scriptpubkey. rewrite IP. reflexivity.
   Qed.
 
-  (* ---- T: refuses_others ---- *)
+  (* ---- T: refuses_others, at full strength ---- *)
   Theorem refuses_others data :
     is_point data = Ok false ->
-    (forall v payload, base58check_decode sha256 data = Ok (v :: payload) ->
-       ~ In v T.p2pkh_versions /\ ~ In v T.p2sh_versions) ->
+    (forall pl, base58check_decode sha256 data = Ok pl -> ~ b58_address_payload pl) ->
     valid_segwit data = false ->
     scriptpubkey data = Err ValueE.
   Proof.
     intros IP NB NS. rewrite scriptpubkey_equation, IP.
     destruct (base58check_decode sha256 data) as [pl|e] eqn:D.
-    - apply b58_branch_unknown. intros v payload ->. now apply (NB v payload).
+    - apply b58_branch_refuses. now apply NB.
     - unfold valid_segwit in NS. destruct (spec_decode data); [discriminate|reflexivity].
   Qed.
 
-  (* ... and conversely every script that comes out is one of exactly these shapes *)
+  (* ... and conversely every script that comes out is one of exactly these *)
   Theorem scriptpubkey_ok_inv data s : scriptpubkey data = Ok s ->
     (is_point data = Ok true /\ s = T.tpl_p2pk data /\ (length data = 33%nat \/ length data = 65%nat))
-    \/ (exists v payload, base58check_decode sha256 data = Ok (v :: payload) /\ lenZ payload < 256 /\
-          ((In v T.p2pkh_versions /\ s = x76 :: xa9 :: z2b (lenZ payload) :: payload ++ [x88; xac])
-           \/ (In v T.p2sh_versions /\ s = xa9 :: z2b (lenZ payload) :: payload ++ [x87])))
+    \/ (exists v h, base58check_decode sha256 data = Ok (v :: h) /\ length h = 20%nat /\
+          ((In v T.p2pkh_versions /\ s = T.tpl_p2pkh h) \/ (In v T.p2sh_versions /\ s = T.tpl_p2sh h)))
     \/ (exists hrp v prog, spec_decode data = Some (hrp, v, prog) /\ is_base58check sha256 data = false
           /\ s = T.tpl_witness v prog).
   Proof.
     rewrite scriptpubkey_equation. destruct (is_point data) as [[|]|e] eqn:IP; [| |discriminate].
     - intros Q. injection Q as <-. left. destruct (p2pk_script data IP) as [_ L]. auto.
     - destruct (base58check_decode sha256 data) as [pl|e] eqn:D.
-      + intros Q. right. left. destruct pl as [|v payload]; [discriminate|]. exists v, payload. split; [reflexivity|].
-        unfold b58_branch in Q. cbn [firstn skipn] in Q.
-        unfold ver_p2pkh_main, ver_p2pkh_test, ver_p2sh_main, ver_p2sh_test in Q. cbn [T.version_byte bytes_eqb] in Q.
-        rewrite !andb_true_r in Q.
-        destruct (Z_lt_le_dec (lenZ payload) 256) as [L|L].
-        * split; [exact L|].
-          destruct (byte_eqb v x00 || byte_eqb v x6f) eqn:E1.
-          { left. rewrite p2pkh_bytes in Q by exact L. injection Q as <-. split; [|reflexivity].
-            apply orb_true_iff in E1 as [E|E]; apply byte_eqb_eq in E; subst; cbn; auto. }
-          destruct (byte_eqb v x05 || byte_eqb v xc4) eqn:E2; [|discriminate].
-          right. rewrite p2sh_bytes in Q by exact L. injection Q as <-. split; [|reflexivity].
-          apply orb_true_iff in E2 as [E|E]; apply byte_eqb_eq in E; subst; cbn; auto.
-        * exfalso. rewrite p2pkh_overflow, p2sh_overflow in Q by exact L.
-          destruct (_ || _); [discriminate|]. destruct (_ || _); discriminate.
+      + intros Q. right. left. apply b58_branch_ok_inv in Q as (v & h & -> & L & C). exists v, h. auto.
       + destruct (spec_decode data) as [[[hrp v] prog]|] eqn:SD; [|discriminate].
         intros Q. injection Q as <-. right. right. exists hrp, v, prog. repeat split.
         unfold is_base58check. now rewrite D.
   Qed.
 
-  (* ---- FINDING: the Base58Check branch never checks the payload length: a checksum-valid string with a known
-          version byte and a hash of the wrong size (here 5 bytes; likewise 0..255 except 20) is mapped to a script
-          that is none of the standard forms (and is unspendable: HASH160 always yields 20 bytes). ---- *)
-  Theorem b58_any_payload_length v payload : lenZ payload < 256 ->
-    (In v T.p2pkh_versions ->
-       scriptpubkey (base58check sha256 (v :: payload)) = Ok (x76 :: xa9 :: z2b (lenZ payload) :: payload ++ [x88; xac]))
-    /\ (In v T.p2sh_versions ->
-       scriptpubkey (base58check sha256 (v :: payload)) = Ok (xa9 :: z2b (lenZ payload) :: payload ++ [x87])).
+  (* whatever comes out is a standard scriptPubKey *)
+  Theorem scriptpubkey_standard data s : scriptpubkey data = Ok s -> T.standard_script s.
   Proof.
-    intros L. pose proof (b58check_roundtrip sha256 sha256_len (v :: payload)) as D.
-    rewrite (scriptpubkey_b58 _ _ D). now apply b58_branch_known.
-  Qed.
-
-  Definition short_payload : bytes := [x11; x11; x11; x11; x11].
-
-  Lemma short_script_not_standard : ~ T.standard_script (x76 :: xa9 :: x05 :: short_payload ++ [x88; xac]).
-  Proof.
-    unfold T.standard_script, short_payload. cbn [app].
-    intros [(h & L & [E|E]) | [(v & prog & Hv & L & E) | (key & L & E)]].
-    - apply (f_equal (@length byte)) in E. unfold T.tpl_p2pkh in E. rewrite !app_length in E. cbn [length] in E. lia.
-    - apply (f_equal (@length byte)) in E. unfold T.tpl_p2sh in E. rewrite !app_length in E. cbn [length] in E. lia.
-    - unfold T.tpl_witness in E. injection E as E _. unfold T.OP_N in E.
-      destruct (v =? 0); [discriminate|]. apply (f_equal b2z) in E. rewrite b2z_z2b in E by lia.
-      change (b2z x76) with 118 in E. lia.
-    - apply (f_equal (@length byte)) in E. unfold T.tpl_p2pk, T.push in E. rewrite app_length in E. cbn [length] in E. lia.
-  Qed.
-
-  Theorem b58_payload_length_refuted :
-    exists data s, is_base58check sha256 data = true /\ scriptpubkey data = Ok s /\ ~ T.standard_script s.
-  Proof.
-    exists (base58check sha256 (x00 :: short_payload)), (x76 :: xa9 :: x05 :: short_payload ++ [x88; xac]).
-    split; [apply is_base58check_iff; exists (x00 :: short_payload); apply (b58check_roundtrip sha256 sha256_len)|].
-    split; [|exact short_script_not_standard].
-    destruct (b58_any_payload_length x00 short_payload ltac:(vm_compute; reflexivity)) as [B _].
-    rewrite B by (cbn; auto). reflexivity.
-  Qed.
-
-  (* with a 20-byte payload every accepted Base58Check address gives a standard script *)
-  Theorem b58_accepted_20 data v payload : base58check_decode sha256 data = Ok (v :: payload) -> length payload = 20%nat ->
-    (In v T.p2pkh_versions -> scriptpubkey data = Ok (T.tpl_p2pkh payload))
-    /\ (In v T.p2sh_versions -> scriptpubkey data = Ok (T.tpl_p2sh payload)).
-  Proof.
-    intros D L. assert (LZ : lenZ payload = 20) by (unfold lenZ; lia).
-    rewrite (scriptpubkey_b58 _ _ D). destruct (b58_branch_known v payload ltac:(lia)) as [B1 B2].
-    split; intros I; [rewrite (B1 I)|rewrite (B2 I)]; rewrite LZ; reflexivity.
+    intros Q. apply scriptpubkey_ok_inv in Q as [(_ & -> & L) | [(v & h & _ & L & C) | (hrp & v & prog & SD & _ & ->)]].
+    - right. right. exists data. auto.
+    - left. exists h. split; [exact L|]. destruct C as [[_ ->]|[_ ->]]; auto.
+    - right. left. exists v, prog. destruct (spec_decode_facts _ _ _ _ SD) as (Hv & PL & _).
+      unfold program_length_ok in PL. apply andb_true_iff in PL as [PL _]. apply andb_true_iff in PL as [P1 P2].
+      apply Nat.leb_le in P1, P2. auto.
   Qed.
 End Dispatch.
 
@@ -492,7 +489,7 @@ Section WithCurve.
   Theorem p2pk_script_valid_key pk x y : Bits.Spec.Sec1.valid_encoding p a b pk x y ->
     scriptpubkey sha256 p a b pk = Ok (T.tpl_p2pk pk).
   Proof.
-    intros V. destruct (is_point_decides pk) as (r & IP & R).
+    clear sha256_len. intros V. destruct (is_point_decides pk) as (r & IP & R).
     assert (r = true) by (apply R; eauto). subst r. now destruct (p2pk_script sha256 p a b pk IP).
   Qed.
 
@@ -501,7 +498,7 @@ Section WithCurve.
     scriptpubkey sha256 p a b (Bits.Spec.Sec1.encode c x y)
     = Ok ((if c then x21 else x41) :: Bits.Spec.Sec1.encode c x y ++ [xac]).
   Proof.
-    intros OC. destruct SF as [SQ Ha Hb Hw N2].
+    clear sha256_len. intros OC. destruct SF as [SQ Ha Hb Hw N2].
     destruct (Bits.Proofs.Sec1.sec1_roundtrip p a b SQ Ha Hb Hw x y c OC) as [_ SP].
     assert (IP : is_point p a b (Bits.Spec.Sec1.encode c x y) = Ok true) by (unfold is_point; now rewrite SP).
     destruct (p2pk_script sha256 p a b _ IP) as [S _]. rewrite S. unfold T.tpl_p2pk, T.push.
@@ -511,8 +508,7 @@ Section WithCurve.
   (* refuses_others with the three notions of validity spelled out *)
   Theorem refuses_others_total data :
     (forall x y, ~ Bits.Spec.Sec1.valid_encoding p a b data x y) ->
-    (forall v payload, base58check_decode sha256 data = Ok (v :: payload) ->
-       ~ In v T.p2pkh_versions /\ ~ In v T.p2sh_versions) ->
+    (forall pl, base58check_decode sha256 data = Ok pl -> ~ b58_address_payload pl) ->
     valid_segwit data = false ->
     scriptpubkey sha256 p a b data = Err ValueE.
   Proof.
@@ -521,19 +517,16 @@ Section WithCurve.
     destruct (proj1 R eq_refl) as (x & y & V). now destruct (NK x y).
   Qed.
 
-  (* the dispatcher never raises anything but ValueError / OverflowError and is total *)
-  Theorem scriptpubkey_errors data e : scriptpubkey sha256 p a b data = Err e -> e = ValueE \/ e = OverflowE.
+  (* the dispatcher is total: a standard script or ValueError, nothing else *)
+  Theorem scriptpubkey_total data :
+    (exists s, scriptpubkey sha256 p a b data = Ok s /\ T.standard_script s) \/ scriptpubkey sha256 p a b data = Err ValueE.
   Proof.
-    rewrite (scriptpubkey_equation sha256 sha256_len). destruct (is_point_decides data) as (r & -> & _).
-    destruct r; [discriminate|].
-    destruct (base58check_decode sha256 data) as [pl|e'].
-    - unfold b58_branch.
-      destruct (_ || _).
-      + destruct (Z_lt_le_dec (lenZ (skipn 1 pl)) 256) as [L|L];
-          [rewrite p2pkh_bytes by exact L; discriminate | rewrite p2pkh_overflow by exact L; intros [= <-]; auto].
-      + destruct (_ || _); [|intros [= <-]; auto].
-        destruct (Z_lt_le_dec (lenZ (skipn 1 pl)) 256) as [L|L];
-          [rewrite p2sh_bytes by exact L; discriminate | rewrite p2sh_overflow by exact L; intros [= <-]; auto].
-    - destruct (spec_decode data) as [[[? ?] ?]|]; [discriminate|]. intros [= <-]. auto.
+    destruct (scriptpubkey sha256 p a b data) as [s|e] eqn:Q.
+    - left. exists s. split; [reflexivity|]. exact (scriptpubkey_standard sha256 sha256_len p a b data s Q).
+    - right. f_equal. rewrite (scriptpubkey_equation sha256 sha256_len) in Q.
+      destruct (is_point_decides data) as (r & IP & _). rewrite IP in Q. destruct r; [discriminate|].
+      destruct (base58check_decode sha256 data) as [pl|e'].
+      + now apply b58_branch_err in Q.
+      + destruct (spec_decode data) as [[[? ?] ?]|]; [discriminate|]. now injection Q as <-.
   Qed.
 End WithCurve.
